@@ -4,6 +4,7 @@
 From Coq Require Import ZArith List Bool String.
 From Coq Require Extraction.
 From Coq Require Import ExtrOcamlBasic ExtrOcamlString.
+From HV Require Gen.GenSelectRow Spec.SelectRowSpec Model.SelectRowModel.
 From HV Require Import Gen.GenPanic Gen.GenRunTest Spec.PanicSpec Model.RunnerModel.
 Import ListNotations.
 Open Scope Z_scope.
@@ -138,6 +139,25 @@ Definition c03_width_cut (a : list Z) : list Z :=
   | _ => []
   end.
 
+(* Exec.select with a scripted oracle: [symbolic; n; eq_0; ne_0; ...; eq_{n-1}; ne_{n-1}]  (newest store first; the key of
+   store i is the variable i+1, the key read is the variable 0; eq_i / ne_i = the answers to key == key_i / key != key_i)
+   -> [tag; position]  (Model/SelectRowModel.select_pos) *)
+Fixpoint c03_chain (i : nat) (n : nat) : list (SelectRowSpec.term * SelectRowSpec.term) :=
+  match n with O => [] | S m => (SelectRowSpec.TVar (S i), SelectRowSpec.TConst (Z.of_nat i + 1)) :: c03_chain (S i) m end.
+Definition c03_script (ans : list Z) (q : SelectRowSpec.query) : Z :=
+  match q with
+  | SelectRowSpec.QEq _ (SelectRowSpec.TVar (S i)) => nth (2 * i) ans 2
+  | SelectRowSpec.QNe _ (SelectRowSpec.TVar (S i)) => nth (2 * i + 1) ans 2
+  | _ => 2
+  end.
+Definition c03_select (a : list Z) : list Z :=
+  match a with
+  | sym :: n :: ans =>
+      SelectRowModel.select_pos GenSelectRow.select_skip GenSelectRow.select_hit (c03_script ans) (z2b sym)
+        (c03_chain 0 (Z.to_nat n)) (SelectRowSpec.TVar 0) 0
+  | _ => []
+  end.
+
 Definition table : list (string * (list Z -> list Z)) :=
   [ ("c03_is_panic_of"%string, c03_is_panic_of);
     ("c03_global_fail"%string, c03_global_fail);
@@ -147,6 +167,7 @@ Definition table : list (string * (list Z -> list Z)) :=
     ("c03_solve_e2e"%string, c03_solve_e2e);
     ("c03_setup"%string, c03_setup);
     ("c03_width_cut"%string, c03_width_cut);
+    ("c03_select"%string, c03_select);
     ("c10_loop_warned"%string, c10_loop_warned) ].
 
 Extraction "_build/C03/entries.ml" table.
